@@ -2,6 +2,7 @@
    requests (text = list of code points):
      (prog FUEL (c c ...))        FUEL = 0: fuel_for (length text)
         -> (ok POS (ast ...)) | (err NAME) | (oof)           POS = index returned by KlongInterpreter.prog
+     (progm FUEL (m m ...) (c c ...))   the same with KlongInterpreter._module = the symbol m
      (lex RN IGN FUEL (c c ...))  kg_read(t, 0, read_neg=RN, ignore_newline=IGN)
         -> (ok POS ast) | (err NAME) | (oof)
    ast encoding: (none) (s c..) (c n) (n c..) (y c..) (op AR c..) (l a..) (d (k v)..)
@@ -57,6 +58,16 @@ Definition dispatch (x : sx) : sx :=
             let fl := if fuel =? 0 then fuel_for n else Z.to_nat fuel in
             sx_res n (fun l => SL (map sx_ast l)) (prog genv fl txt)
         | None => sx_err "prog"
+        end
+      else sx_err "op"
+  | SL [SS t; SZ fuel; SL m; SL cps] =>
+      if is_tag "progm" t then
+        match sx_get_zs m, sx_get_zs cps with
+        | Some md, Some txt =>
+            let n := List.length txt in
+            let fl := if fuel =? 0 then fuel_for n else Z.to_nat fuel in
+            sx_res n (fun l => SL (map sx_ast l)) (prog (env_with_module genv (Some md)) fl txt)
+        | _, _ => sx_err "progm"
         end
       else sx_err "op"
   | SL [SS t; SZ rn; SZ ign; SZ fuel; SL cps] =>
